@@ -6,7 +6,7 @@ SEG_CANDS = list('~!\'$%&?@[]{}|<>=;`^+#') + ['\n', '\x1c', '\x1e', '\x15']
 ELE_CANDS = list('*|^+!,;=#%&@?<>{}') + ['\x1d', '\x1f']
 SUB_B = list(':!&()+,./;?=\'"*-')                    # component separator must be in the basic character set (all its punctuation, incl. * and -)
 SUB_E = SUB_B + list('\\|<>~@[]_{}#$%')              # ... or the extended one when charset E
-EOLS = ['', '\n', '\r\n', '\r', '\n\n']
+EOLS = ['', '\n', '\r\n', '\r', '\n\n', 'mixed']
 
 
 def reencode(text, seg_t, ele_t, sub_t, eol='', rep_t=None):
@@ -28,6 +28,10 @@ def reencode(text, seg_t, ele_t, sub_t, eol='', rep_t=None):
         else:
             lead = p.lead if not any(t in p.lead for t in (seg_t, ele_t, sub_t)) else ' '
             out.append(lead + ele_t.join([p.sid] + [sub_t.join(c) for c in p.elements]) + seg_t)
+    if eol == 'mixed':
+        # every terminator followed by its own choice of nothing / LF / CR LF / CR (files stitched together from parts written by different systems)
+        pat = ['\n', '', '\r\n', '\n', '\r', '\r\n', '']
+        return ''.join(o + pat[(i * 5 + len(o)) % len(pat)] for i, o in enumerate(out))
     return eol.join(out) + eol
 
 
